@@ -1673,12 +1673,12 @@ let writer = matches!(kind.as_str(), "textDocument/rename" | "textDocument/forma
                 // "sandwich": a question about ANOTHER file of the project just before this edit, and the same question
                 // again just after it - answers that depend on more than the document they are about (lenses of a test
                 // whose file imports this one, symbols, tokens) must follow
-                let sandwich: Option<Ev> = if rng.chance(1, 5) {
+                let sandwich: Option<Ev> = if rng.chance(1, 3) {
                     let others: Vec<&str> = lc::FILES.iter().cloned().filter(|f| *f != file).collect();
                     let y = rng.pick(&others).to_string();
                     let ycur = buffers.get(&y).cloned().or_else(|| model_disk.get(&y).cloned().flatten());
                     let kind = rng
-                        .pick(&["textDocument/codeLens", "textDocument/codeLens", "textDocument/documentSymbol", "textDocument/semanticTokens/full", "textDocument/hover", "textDocument/definition", "textDocument/references", "workspace/symbol"][..])
+                        .pick(&["textDocument/codeLens", "textDocument/codeLens", "textDocument/codeLens", "textDocument/documentSymbol", "textDocument/semanticTokens/full", "textDocument/hover", "textDocument/definition", "textDocument/references", "workspace/symbol"][..])
                         .to_string();
                     let (line, col, pos_kind) = gen_position(&mut rng, ycur.as_deref(), None);
                     Some(Ev::Req { kind, file: y, line, col, extra: String::new(), pos_kind })
@@ -1773,8 +1773,16 @@ let writer = matches!(kind.as_str(), "textDocument/rename" | "textDocument/forma
                 if closed.is_empty() {
                     continue;
                 }
-                let file = rng.pick(&closed).to_string();
-                let t = match (model_disk.get(&file).cloned().flatten(), rng.chance(4, 5)) {
+                // (the project file is one document among six, and the one whose buffer decides what the project IS:
+                // one open in seven goes to it, when it is closed)
+                let file = if rng.chance(1, 7) && !buffers.contains_key("mos.toml") {
+                    "mos.toml".to_string()
+                } else {
+                    rng.pick(&closed).to_string()
+                };
+                // a buffer of mos.toml differs from the disk more often than not: that is what it was opened for
+                let keep_disk = if file == "mos.toml" { rng.chance(1, 3) } else { rng.chance(4, 5) };
+                let t = match (model_disk.get(&file).cloned().flatten(), keep_disk) {
                     (Some(t), true) => t,
                     _ => rng.pick(lc::variants_of(&file)).to_string(),
                 };
